@@ -69,7 +69,11 @@ class MessageHandler(Virtual):
         if match is None:
             return False
 
-        message_num = int(match.groups()[0])
+        try:
+            message_num = int(match.groups()[0])
+        except ValueError:
+            # More digits than int() accepts (sys.int_info.str_digits_check_threshold)
+            return False
         if message_num < 1:
             return False
 
